@@ -9,8 +9,10 @@ import (
 	"os"
 	"os/exec"
 	"path/filepath"
+	"runtime/debug"
 	"strconv"
 	"strings"
+	"sync"
 	"sync/atomic"
 	"time"
 
@@ -226,6 +228,15 @@ type c17Run struct {
 	caseToks  []string
 	obsToks   []string
 	stats     map[string]int
+	// restore listeners that use the database, readers, watchdog (c17_readers.go)
+	mu      sync.Mutex
+	lbodies []c17xBody
+	lobs    []string
+	ldone   int64
+	lcalls  int64
+	tlMode  string
+	nsrc    int
+	dead    bool // a restore or its listeners hang: the database must not be touched any more
 }
 
 func newC17Run(stats map[string]int) (*c17Run, error) {
@@ -241,17 +252,38 @@ func newC17Run(stats map[string]int) (*c17Run, error) {
 }
 
 func (h *c17Run) close() {
-	_ = h.db.Close()
+	if !h.dead {
+		func() {
+			defer func() { _ = recover() }()
+			_ = h.db.Close()
+		}()
+	}
 	_ = os.RemoveAll(h.dir)
 }
 
-func (h *c17Run) live() []csEntry {
-	var out []csEntry
+func (h *c17Run) live() (out []csEntry) {
+	if h.dead {
+		return nil
+	}
+	defer func() {
+		if recover() != nil { // a failed restore can leave the handle unusable
+			out = nil
+		}
+	}()
 	_ = h.db.View(func(tx *bbolt.Tx) error {
 		out = csWalk(tx)
 		return nil
 	})
 	return out
+}
+
+// guard: an operation that panics inside the library (a restore that failed half-way can leave the handle
+// unusable) ends the history instead of the harness; the failed restore itself has been recorded
+func (h *c17Run) guard() {
+	if r := recover(); r != nil {
+		h.dead = true
+		h.stats["op_panicked"]++
+	}
 }
 
 func (h *c17Run) emit(caseTok, obs string) {
@@ -278,6 +310,10 @@ func (h *c17Run) rawTx(ws []c17Wop, commit bool) string {
 }
 
 func (h *c17Run) opTx(ws []c17Wop, commit bool) {
+	if h.dead {
+		return
+	}
+	defer h.guard()
 	obs := h.rawTx(ws, commit)
 	h.emit(fmt.Sprintf("tx %d %s", b2i(commit), c17Wops(ws)), obs)
 	h.stats["op_tx"]++
@@ -285,6 +321,10 @@ func (h *c17Run) opTx(ws []c17Wop, commit bool) {
 
 // a transaction through the real stores; recorded as the raw difference it made
 func (h *c17Run) opStoreTx(r *rng) {
+	if h.dead {
+		return
+	}
+	defer h.guard()
 	before := h.live()
 	err := h.db.Update(nil, func(ctx boltz.MutateContext) error {
 		if err := h.stores.init(ctx.Tx()); err != nil {
@@ -389,6 +429,10 @@ func (h *c17Run) registerSnapshot(path, id string) ([]csEntry, error) {
 }
 
 func (h *c17Run) opSnap(kind string, commit bool, before, after []c17Wop) {
+	if h.dead {
+		return
+	}
+	defer h.guard()
 	path := filepath.Join(h.dir, fmt.Sprintf("snap%d", len(h.files)))
 	var actual, id string
 	var err error
@@ -443,6 +487,10 @@ func (h *c17Run) opSnap(kind string, commit bool, before, after []c17Wop) {
 }
 
 func (h *c17Run) opStream() {
+	if h.dead {
+		return
+	}
+	defer h.guard()
 	var buf bytes.Buffer
 	if err := h.db.StreamToWriter(&buf); err != nil {
 		h.emit("stream", "stream error")
@@ -462,34 +510,21 @@ func (h *c17Run) opStream() {
 
 func (h *c17Run) opRestore(k int) {
 	caseTok := fmt.Sprintf("restore %d", k)
+	if h.dead {
+		return
+	}
 	if k < 0 || k >= len(h.files) {
 		h.emit(caseTok, "nofile")
 		return
 	}
-	want := atomic.LoadInt64(&h.fired) + int64(h.listeners)
-	var panicked interface{}
-	func() {
-		defer func() { panicked = recover() }()
-		h.db.RestoreSnapshot(h.files[k])
-	}()
-	if panicked != nil {
-		h.emit(caseTok, "restore panic:"+hxs(fmt.Sprint(panicked)))
-		return
-	}
-	// restore listeners run asynchronously: wait for the expected count, then a grace period for extras
-	deadline := time.Now().Add(c17ListenerWait)
-	for atomic.LoadInt64(&h.fired) < want && time.Now().Before(deadline) {
-		time.Sleep(200 * time.Microsecond)
-	}
-	if atomic.LoadInt64(&h.fired) < want {
-		c17ListenerWait = 50 * time.Millisecond // already a finding; do not wait seconds for each later restore
-	}
-	time.Sleep(2 * time.Millisecond)
-	h.emit(caseTok, fmt.Sprintf("restore fired=%d", atomic.LoadInt64(&h.fired)))
-	h.stats["op_restore"]++
+	h.doRestore(caseTok, false, func() { h.db.RestoreSnapshot(h.files[k]) })
 }
 
 func (h *c17Run) opSnapId() {
+	if h.dead {
+		return
+	}
+	defer h.guard()
 	id, err := h.db.GetSnapshotId()
 	switch {
 	case err != nil:
@@ -507,6 +542,10 @@ func (h *c17Run) opSnapId() {
 }
 
 func (h *c17Run) opTimeline(mode string, idfOk bool, idf []byte) {
+	if h.dead {
+		return
+	}
+	defer h.guard()
 	m := map[string]boltz.TimelineMode{"d": boltz.TimelineModeDefault, "i": boltz.TimelineModeInitIfEmpty, "f": boltz.TimelineModeForceReset}[mode]
 	calls := 0
 	id, err := h.db.GetTimelineId(m, func() (string, error) {
@@ -529,12 +568,7 @@ func (h *c17Run) opTimeline(mode string, idfOk bool, idf []byte) {
 	h.stats["op_tl_"+mode]++
 }
 
-func (h *c17Run) opAddListener() {
-	h.db.AddRestoreListener(func() { atomic.AddInt64(&h.fired, 1) })
-	h.listeners++
-	h.emit("addl", "addl")
-	h.stats["op_addl"]++
-}
+func (h *c17Run) opAddListener() { h.opAddDbListener(c17xBody{kind: "c"}) }
 
 // ---- generators ---------------------------------------------------------------------------------
 
@@ -621,14 +655,14 @@ func (h *c17Run) genOp(r *rng) {
 		} else if r.chance(5) {
 			h.opRestore(len(h.files) + r.intn(2))
 		} else {
-			h.opRestore(r.intn(len(h.files)))
+			h.genRestore(r, r.intn(len(h.files)))
 		}
 	case x < 80:
 		h.opSnapId()
 	case x < 95:
 		h.genTimeline(r)
 	default:
-		h.opAddListener()
+		h.genDbListener(r, 40)
 	}
 }
 
@@ -676,14 +710,14 @@ func (h *c17Run) genHistory(r *rng, structured bool) {
 		h.genTimeline(r)
 	}
 	for i, n := 0, r.intn(3); i < n; i++ {
-		h.opAddListener()
+		h.genDbListener(r, 50)
 	}
 	h.genSnap(r)
 	k := len(h.files) - 1
 	for i, n := 0, r.intn(7); i < n; i++ {
 		h.genOp(r)
 	}
-	h.opRestore(k)
+	h.genRestore(r, k)
 	h.opSnapId()
 	m1 := r.pick([]string{"d", "i", "f"})
 	if r.chance(20) {
@@ -694,6 +728,39 @@ func (h *c17Run) genHistory(r *rng, structured bool) {
 	h.opTimeline(r.pick([]string{"d", "i", "f"}), true, []byte("N3"))
 	for i, n := 0, r.intn(3); i < n; i++ {
 		h.genOp(r)
+	}
+}
+
+// state A ; listeners ; snapshot ; then many restores of that file through readers of every behaviour,
+// the live database modified in between
+func (h *c17Run) genReaderSweep(r *rng) {
+	for i, n := 0, 1+r.intn(3); i < n; i++ {
+		if r.chance(50) {
+			h.opStoreTx(r)
+		} else {
+			h.opTx(c17GenWops(r, 5), true)
+		}
+	}
+	for i, n := 0, r.intn(3); i < n; i++ {
+		h.genDbListener(r, 30)
+	}
+	if r.chance(80) {
+		h.genSnap(r)
+	} else {
+		h.opStream()
+	}
+	k := len(h.files) - 1
+	if k < 0 {
+		return
+	}
+	for i, n := 0, 8+r.intn(8); i < n; i++ {
+		if r.chance(50) {
+			h.opTx(c17GenWops(r, 4), true)
+		}
+		h.opRestoreReader(k, c17xGenScript(r, len(h.files[k])))
+		if r.chance(25) {
+			h.opSnapId()
+		}
 	}
 }
 
@@ -778,6 +845,17 @@ func (h *c17Run) replay(line string) {
 			}
 		case "addl":
 			h.opAddListener()
+		case "addlv":
+			h.opAddDbListener(c17xBody{kind: "v"})
+		case "addls":
+			h.opAddDbListener(c17xBody{kind: "s"})
+		case "addlt":
+			h.opAddDbListener(c17xBody{kind: "t", mode: t.next()})
+		case "addlw":
+			h.opAddDbListener(c17xBody{kind: "w", key: unhx(t.next())})
+		case "restorer":
+			k, sc := c17xParseScript(t)
+			h.opRestoreReader(k, sc)
 		default:
 			panic("c17: unknown op " + op)
 		}
@@ -793,12 +871,22 @@ func c17Quiet() {
 
 func runC17(o *opts) error {
 	c17Quiet()
+	debug.SetPanicOnFault(true) // see doRestore; the operations after a failed restore run on this goroutine
+	if abs, err := filepath.Abs(o.out); err == nil {
+		o.out = abs
+	}
 	cases := newLineWriter(o.out, "cases.txt")
 	impl := newLineWriter(o.out, "impl.txt")
 	defer cases.close()
 	defer impl.close()
 	stats := map[string]int{}
 	r := newRng(o.seed)
+	if ms := o.getInt("hangms", 0); ms > 0 {
+		c17HangWait = time.Duration(ms) * time.Millisecond
+	}
+	if ms := o.getInt("listenms", 0); ms > 0 {
+		c17ListenerWait = time.Duration(ms) * time.Millisecond
+	}
 
 	finish := func(h *c17Run) {
 		cases.line("H %d %s", len(h.caseToks), strings.Join(h.caseToks, " "))
@@ -849,7 +937,11 @@ func runC17(o *opts) error {
 		if err != nil {
 			return err
 		}
-		h.genHistory(r, i%3 != 2)
+		if i%8 == 5 {
+			h.genReaderSweep(r)
+		} else {
+			h.genHistory(r, i%3 != 2)
+		}
 		finish(h)
 	}
 
@@ -862,7 +954,7 @@ func runC17(o *opts) error {
 			rounds = 3
 		}
 		for round := 0; round < rounds; round++ {
-			for _, mode := range []string{"plain", "batch", "snapshot", "rootbucket", "snapintx"} {
+			for _, mode := range []string{"plain", "batch", "snapshot", "rootbucket", "snapintx", "nested", "listeners"} {
 				cases.line("R %s %d", mode, ms)
 				impl.line("%s", c17RaceChild(mode, ms, o.seed+int64(round), o.out))
 				stats["race_"+mode]++
@@ -996,6 +1088,7 @@ func runC17Race(o *opts) error {
 		return err
 	}
 	defer os.RemoveAll(dir)
+	_ = os.Chdir(dir) // a restore that failed half-way makes later ones write next to a nameless database
 	db, err := boltz.Open(filepath.Join(dir, "live.db"), "r")
 	if err != nil {
 		return err
@@ -1042,6 +1135,12 @@ func runC17Race(o *opts) error {
 		}
 	}
 	worker := func(id int) {
+		debug.SetPanicOnFault(true)
+		defer func() {
+			if r := recover(); r != nil {
+				report("error", fmt.Sprint("transaction panicked: ", r))
+			}
+		}()
 		n := 0
 		for atomic.LoadInt32(&stop) == 0 {
 			n++
@@ -1092,9 +1191,21 @@ func runC17Race(o *opts) error {
 					}
 					return verr
 				}
-				if mode == "batch" {
+				switch {
+				case mode == "batch":
 					e = db.Batch(nil, body)
-				} else {
+				case mode == "nested":
+					// a multi-step writer: nested Db.Update / Db.Batch calls that join the transaction of the context
+					e = db.Update(nil, func(ctx boltz.MutateContext) error {
+						if _, verr := c17RaceValue(ctx.Tx()); verr != nil {
+							return verr
+						}
+						if n%2 == 0 {
+							return db.Update(ctx, body)
+						}
+						return db.Batch(ctx, body)
+					})
+				default:
 					e = db.Update(nil, body)
 				}
 				check("writer", vals, e, epoch0)
@@ -1103,10 +1214,48 @@ func runC17Race(o *opts) error {
 			atomic.AddInt64(&progress, 1)
 		}
 	}
+	var lsStarted, lsDone, lsWanted int64
+	if mode == "listeners" {
+		// restore listeners that use the database, as applications do to refresh derived state
+		db.AddRestoreListener(func() {
+			atomic.AddInt64(&lsStarted, 1)
+			epoch0 := atomic.LoadInt64(&restoreEpoch)
+			var vals []uint64
+			e := db.View(func(tx *bbolt.Tx) error {
+				var verr error
+				vals, verr = c17RaceValue(tx)
+				return verr
+			})
+			check("listener", vals, e, epoch0)
+			atomic.AddInt64(&lsDone, 1)
+		})
+		db.AddRestoreListener(func() {
+			atomic.AddInt64(&lsStarted, 1)
+			if id, ierr := db.GetSnapshotId(); ierr != nil || id == nil {
+				report("error", "GetSnapshotId in a restore listener failed")
+			}
+			atomic.AddInt64(&lsDone, 1)
+		})
+		db.AddRestoreListener(func() {
+			atomic.AddInt64(&lsStarted, 1)
+			e := db.Update(nil, func(ctx boltz.MutateContext) error {
+				bk, berr := ctx.Tx().CreateBucketIfNotExists([]byte("lsn"))
+				if berr != nil {
+					return berr
+				}
+				return bk.Put([]byte("k"), append(csClone(bk.Get([]byte("k"))), 1))
+			})
+			if e != nil {
+				report("error", "Update in a restore listener: "+e.Error())
+			}
+			atomic.AddInt64(&lsDone, 1)
+		})
+	}
 	for i := 0; i < 6; i++ {
 		go worker(i)
 	}
 	go func() { // the restorer
+		debug.SetPanicOnFault(true) // a truncated file under bbolt's memory map: a panic of this restore, not a crash
 		g := 0
 		for atomic.LoadInt32(&stop) == 0 {
 			func() {
@@ -1115,7 +1264,19 @@ func runC17Race(o *opts) error {
 						report("error", fmt.Sprint("restore panicked: ", r))
 					}
 				}()
-				db.RestoreSnapshot(snaps[g%len(snaps)])
+				data := snaps[g%len(snaps)]
+				if mode == "listeners" {
+					// through readers of different behaviour
+					sc := c17xScript{flav: "r", length: len(data), failAt: -1, eofd: g%2 == 0, rest: []int{0, 1000, 4096, len(data), 32768}[g%5]}
+					var rd io.Reader = struct{ io.Reader }{newC17xReader(data, sc)}
+					if g%3 == 2 {
+						rd = c17xWriterTo{newC17xReader(data, sc)}
+					}
+					db.RestoreFromReader(rd)
+					atomic.AddInt64(&lsWanted, 3) // it returned: its three listeners were started and must finish
+				} else {
+					db.RestoreSnapshot(data)
+				}
 			}()
 			atomic.AddInt64(&restoreEpoch, 1)
 			atomic.AddInt64(&restores, 1)
@@ -1151,6 +1312,16 @@ func runC17Race(o *opts) error {
 	if res.Stuck == "" {
 		time.Sleep(30 * time.Millisecond)
 	}
+	if mode == "listeners" && res.Stuck == "" {
+		// every listener of every completed restore must come back from the database
+		want := atomic.LoadInt64(&lsWanted)
+		for w := 0; w < 100 && atomic.LoadInt64(&lsDone) < want; w++ {
+			time.Sleep(10 * time.Millisecond)
+		}
+		if got := atomic.LoadInt64(&lsDone); got < want {
+			res.Stuck = fmt.Sprintf("mode listeners: %d of the %d restore listeners started by %d restores did not finish (started %d)", want-got, want, want/3, atomic.LoadInt64(&lsStarted))
+		}
+	}
 	res.Txs, res.Restores = atomic.LoadInt64(&txs), atomic.LoadInt64(&restores)
 	res.OldSeen, res.NewSeen = atomic.LoadInt64(&oldSeen), atomic.LoadInt64(&newSeen)
 	for {
@@ -1168,6 +1339,8 @@ func runC17Race(o *opts) error {
 	}
 	b, _ := json.Marshal(res)
 	fmt.Println(string(b))
+	_ = os.Chdir(os.TempDir())
+	_ = os.RemoveAll(dir)
 	os.Exit(0) // goroutines may still be blocked on the lock
 	return nil
 }
